@@ -130,7 +130,47 @@ def run_check(tier, seed):
         if rng.random() < 0.5:
             cases.append(f"RENP {rng.choice(['semver', 'pep440'])} {hx(rng.choice([p for p in zgen.PRESETS if p.startswith('calver')]))} {zgen.enc_vars(v_)}")
     correspond(run, "component_level_ts_and_calver_presets", cases, nontrivial=lambda c, r: r.startswith("OK"), describe=lambda c: {"request": c[:500]})
+    real_commit_times(run, rng)
     return run
+
+
+def real_commit_times(run, rng):
+    """the instant behind the patterns is the COMMIT time of HEAD as git records it (committer date, %ct) - also when the author date
+    differs (amend, rebase, cherry-pick) and when the tag is newer than the commit"""
+    import datetime, os, shutil, subprocess, tempfile
+    from . import gitfx
+    from .cli import run_procs
+    root = tempfile.mkdtemp(prefix="zv17-")
+    st = run.streams.setdefault("real_commits_author_vs_committer_date", {"repositories": 0, "runs": 0})
+    ron = '(core:[var(ts("YYYY")),var(ts("MM")),var(ts("DD"))],extra_core:[],build:[var(ts("HH")),var(ts("mm")),var(ts("SS")),var(ts("compact_datetime"))])'
+    try:
+        for i, (author, committer, tagts) in enumerate([(1688169599, 1688169600, 1688169600), (1600000000, 1700000000, 1700000000), (1700000000, 1600000000, 1650000000),
+                                                         (rng.randint(0, 4102444800), rng.randint(0, 4102444800), rng.randint(0, 4102444800)), (1704067199, 1704067200, 1704067300)]):
+            path = os.path.join(root, f"r{i}")
+            gitfx.build_repo(path, [("commit", 1500000000), ("atag", "v1.0.0", tagts)])
+            env = dict(gitfx.GIT_ENV, GIT_AUTHOR_DATE=f"{author} +0000", GIT_COMMITTER_DATE=f"{committer} +0000")
+            subprocess.run([gitfx.REAL_GIT, "-c", "commit.gpgsign=false", "commit", "-q", "--allow-empty", "-m", "second"], cwd=path, env=env, check=True)
+            st["repositories"] += 1
+            d = datetime.datetime.fromtimestamp(committer, datetime.timezone.utc)
+            want = f"{d.year}.{d.month}.{d.day}+{d.hour}.{d.minute}.{d.second}.{d.strftime('%Y%m%d%H%M%S')}"
+            for argv in (["version", "--schema-ron=" + ron], ["version", "--schema-ron=" + ron, "--output-format=zerv"], ["version", "--schema=calver-base"]):
+                rc, out, err = run_procs([(argv, None)], env={"TZ": rng.choice(["UTC", "Pacific/Kiritimati", "America/Anchorage"]), "GIT_CONFIG_GLOBAL": "/dev/null"}, cwd=path)[0]
+                st["runs"] += 1
+                run.evaluations += 1
+                o = out.decode("utf-8", "replace").strip()
+                desc = {"repository": f"tag v1.0.0 (tagged at {tagts}) on an older commit; HEAD with author date {author} and committer date {committer}", "argv": argv}
+                if rc != 0:
+                    run.add_violation("oracle", {"stream": "real_commits_author_vs_committer_date", "what": "version fails on a plain repository", "described": desc, "stderr": err.decode("utf-8", "replace")[-300:]}, True)
+                elif "--output-format=zerv" in argv:
+                    if f"bumped_timestamp: Some({committer})" not in o:
+                        run.add_violation("oracle", {"stream": "real_commits_author_vs_committer_date", "what": "bumped_timestamp is not the commit time of HEAD", "described": desc, "output": o[-600:]}, True)
+                elif "--schema-ron" in argv[1] and o != want:
+                    run.add_violation("oracle", {"stream": "real_commits_author_vs_committer_date", "what": "the pattern fields are not the UTC calendar fields of HEAD's commit time", "described": desc, "output": o, "expected": want}, True)
+                elif argv[1] == "--schema=calver-base" and not o.startswith(f"{d.year}.{d.month}.{d.day}"):
+                    run.add_violation("oracle", {"stream": "real_commits_author_vs_committer_date", "what": "the CalVer preset does not print the UTC date of HEAD's commit time", "described": desc, "output": o, "expected_prefix": f"{d.year}.{d.month}.{d.day}"}, True)
+                run.nontrivial.add(o)
+    finally:
+        shutil.rmtree(root, ignore_errors=True)
 
 
 RULE = ("requests are (pattern, u64 timestamp) pairs given to resolve_timestamp; every day from 1970-01-01 to 2199-12-31 at its first and last "
